@@ -32,6 +32,55 @@ def load_spec(ctx):
         return json.load(f)
 
 
+def check_decision_application(rep, prog, rid="BMCA-5"):
+    """every decision code moves the port to the prescribed state, from every prior state. Shared with C12 (TMR-7:
+    a decision that is skipped for some prior state leaves the port where no timer will ever move it)."""
+    # ---------------- BMCA-5
+    rows = fsm.transitions(prog)
+    seen = set()
+    for r in rows:
+        dec = None
+        for l in r["lits"]:
+            if l[0] == "variant" and l[3] == "RecommendedState":
+                dec = set(l[2]) if dec is None else dec & set(l[2])
+        if dec is None or not r["to"] or len(r["to"]) != 1:
+            continue
+        b = r["body"]
+        tgt = list(r["to"])[0]
+        lits = r["lits"]
+        so = any(l[0] == "bool" and (df.named_fields(l[1]) or ())[-1:] == ("slave_only",) and l[2] is True for l in lits)
+        nso = any(l[0] == "bool" and (df.named_fields(l[1]) or ())[-1:] == ("slave_only",) and l[2] is False for l in lits)
+        mp = any(l[0] == "bool" and "multiport_disable" in df.tree_str(l[1]) and l[2] is True for l in lits)
+        nmp = any(l[0] == "bool" and "multiport_disable" in df.tree_str(l[1]) and l[2] is False for l in lits)
+        if dec == {"S1"}:
+            want = "Slave"
+        elif dec <= {"M1", "M2", "M3"}:
+            want = "Listening" if so else ("Passive" if (nso and mp) else ("Master" if (nso and nmp) else "?"))
+        elif dec <= {"P1", "P2"}:
+            want = "Passive"
+        else:
+            want = "?"
+        construct = "%s -> %s" % ("|".join(sorted(dec)), tgt)
+        seen.add(("|".join(sorted(dec)), tgt))
+        must_cover = set(fsm.STATES) - {tgt, "Faulty"}
+        if tgt == "Slave":
+            must_cover = {"Listening", "Master", "Passive", "Slave"}
+        missing = must_cover - r["from"]
+        if want != tgt:
+            rep.violation(rid, b.key, construct,
+                          "decision %s moves the port to %s here, the standard (with statime's documented deviations) "
+                          "prescribes %s under these conditions" % ("|".join(sorted(dec)), tgt, want), where=fc.where(b, r["line"]))
+        elif missing:
+            rep.violation(rid, b.key, construct,
+                          "decision %s is not applied when the port is %s" % ("|".join(sorted(dec)), sorted(missing)),
+                          where=fc.where(b, r["line"]))
+        else:
+            rep.ok(rid, b.key, construct, detail="from {%s}" % ",".join(sorted(r["from"])), where=fc.where(b, r["line"]))
+    for need in (("S1", "Slave"), ("M1|M2|M3", "Master"), ("M1|M2|M3", "Listening"), ("M1|M2|M3", "Passive"), ("P1|P2", "Passive")):
+        if need not in seen:
+            rep.violation(rid, "<fsm>", "%s -> %s" % need, "no transition implements decision %s -> %s" % need)
+
+
 def run(ctx):
     rep = ctx.report
     prog = ctx.prog("default")
@@ -204,50 +253,7 @@ def run(ctx):
     except AnchorMissing as e:
         rep.anchor_missing("BMCA-4", str(e))
 
-    # ---------------- BMCA-5
-    rows = fsm.transitions(prog)
-    seen = set()
-    for r in rows:
-        dec = None
-        for l in r["lits"]:
-            if l[0] == "variant" and l[3] == "RecommendedState":
-                dec = set(l[2]) if dec is None else dec & set(l[2])
-        if dec is None or not r["to"] or len(r["to"]) != 1:
-            continue
-        b = r["body"]
-        tgt = list(r["to"])[0]
-        lits = r["lits"]
-        so = any(l[0] == "bool" and (df.named_fields(l[1]) or ())[-1:] == ("slave_only",) and l[2] is True for l in lits)
-        nso = any(l[0] == "bool" and (df.named_fields(l[1]) or ())[-1:] == ("slave_only",) and l[2] is False for l in lits)
-        mp = any(l[0] == "bool" and "multiport_disable" in df.tree_str(l[1]) and l[2] is True for l in lits)
-        nmp = any(l[0] == "bool" and "multiport_disable" in df.tree_str(l[1]) and l[2] is False for l in lits)
-        if dec == {"S1"}:
-            want = "Slave"
-        elif dec <= {"M1", "M2", "M3"}:
-            want = "Listening" if so else ("Passive" if (nso and mp) else ("Master" if (nso and nmp) else "?"))
-        elif dec <= {"P1", "P2"}:
-            want = "Passive"
-        else:
-            want = "?"
-        construct = "%s -> %s" % ("|".join(sorted(dec)), tgt)
-        seen.add(("|".join(sorted(dec)), tgt))
-        must_cover = set(fsm.STATES) - {tgt, "Faulty"}
-        if tgt == "Slave":
-            must_cover = {"Listening", "Master", "Passive", "Slave"}
-        missing = must_cover - r["from"]
-        if want != tgt:
-            rep.violation("BMCA-5", b.key, construct,
-                          "decision %s moves the port to %s here, the standard (with statime's documented deviations) "
-                          "prescribes %s under these conditions" % ("|".join(sorted(dec)), tgt, want), where=fc.where(b, r["line"]))
-        elif missing:
-            rep.violation("BMCA-5", b.key, construct,
-                          "decision %s is not applied when the port is %s" % ("|".join(sorted(dec)), sorted(missing)),
-                          where=fc.where(b, r["line"]))
-        else:
-            rep.ok("BMCA-5", b.key, construct, detail="from {%s}" % ",".join(sorted(r["from"])), where=fc.where(b, r["line"]))
-    for need in (("S1", "Slave"), ("M1|M2|M3", "Master"), ("M1|M2|M3", "Listening"), ("M1|M2|M3", "Passive"), ("P1|P2", "Passive")):
-        if need not in seen:
-            rep.violation("BMCA-5", "<fsm>", "%s -> %s" % need, "no transition implements decision %s -> %s" % need)
+    check_decision_application(rep, prog)
 
     # ---------------- BMCA-6 (shared with C11 ANN-2)
     from rules import c11, c03
